@@ -93,8 +93,8 @@ PROPS["C11"] = {
     "exhaustive": True,
     "data_obligations": ["Tables.boms = Spec.spec_boms", "textChars class T below 0x80 = ASCII text characters of the specification"],
     "rule": "every string over the 23 byte classes 61 0A 1B 7F 80 85 8F 90 9F A0 BB BF C2 DF E0 E1 ED EF F0 F4 F5 FE FF up to length 4 (quick) / 5 (thorough) through charset.FromPlain, compared with the model and judged by the extracted predicate c11_judge (Unicode Table 3-7 well-formedness, cut-off final sequence, C1 bytes); real UTF-8 / Latin / BOM texts cut at every limit through FromPlain and through Detect's charset parameter; non-trivial = a charset was reported",
-    "proved": "BOM clause; windows-1252 / iso-8859-1 split; table obligations",
-    "not_proved": "the two UTF-8 clauses (mechanisation in progress): decided exhaustively on the implementation by the specification predicate",
+    "proved": "the full statement on the model, for every byte string: BOM clause; utf-8 only if the bytes are valid UTF-8 (Unicode Table 3-7, shown equal to the model of utf8.Valid) apart from a multi-byte sequence cut off at the very end; utf-8 always for such text that is ASCII text only or has a complete non-ASCII character (trailing-partial-rune trimmer and FullRune characterised); windows-1252 / iso-8859-1 split; table obligations",
+    "not_proved": "that charset.FromPlain, utf8.Valid, utf8.FullRune and utf8.RuneStart are the modelled functions (correspondence, exhaustive over the byte-class alphabet, plus the specification predicate judging the implementation directly)",
     "assumptions": COMMON_ASSUME,
 }
 PROPS["C12"] = {
@@ -130,8 +130,8 @@ PROPS["C05"] = {
     "channels": [{"cmd": "run-c05"}],
     "cone": r"^MISMATCH (reader|harness|driver)",
     "rule": "inputs (empty, 1 byte, PDF/JSON/CSV/HTML/PNG/zip headers, random, the testdata files) x limits {0, 3072, 1, len-1, len/2, len, len+1, 2^22} x chunk schedules (plain, 1-byte, 3-byte, zero-length reads, data together with EOF, Fibonacci, random) and an injected sentinel error at every byte offset 0..min(len,limit)+1 (single chunk and 2-byte chunks); a root-level spy extension records the exact (header, limit) handed to the tree walk, the reader counts bytes delivered; compared with the reader model and judged directly (agreement with Detect, consumed <= limit, error surfaces with application/octet-stream); DetectFile on temp files, a directory and a missing path; non-trivial = scripted (non-plain) reader",
-    "proved": "reader_agrees (all inputs, limits, failure-free scripts): header = hdr limit x, no error, consumed <= limit (= len for limit 0); ReadFull/ReadAll lemmas; error at the first read surfaces",
-    "not_proved": "error surfacing after k delivered bytes is proved for k = 0 only (k > 0: model + correspondence); os.File assumed conforming",
+    "proved": "reader_agrees (all inputs, limits, failure-free scripts incl. zero-length reads and data with EOF): header = hdr limit x, no error, consumed <= limit (= len for limit 0); an injected error after ANY failure-free prefix of reads: the outcome is either that of the failure-free case or errMIME with exactly that error (C05_error_anywhere), and it is the error whenever the preceding reads offer fewer bytes than the input holds and the limit asks for (C05_error_before_header)",
+    "not_proved": "that io.ReadFull / io.ReadAll / DetectReader are the modelled loops (correspondence with scripted readers); os.File assumed conforming; DetectFile = open + DetectReader is exercised only",
     "assumptions": COMMON_ASSUME + ["a buffer of `limit` bytes behaves like one of min(limit, len+1) bytes (model abstraction)", "os.File is a conforming reader"],
 }
 
